@@ -236,3 +236,246 @@ Proof.
     replace (n1 + n2 <? Zlen (unsent (hosts s))) with false by lia.
     exists s2. split; [reflexivity|]. split; [assumption|]. split; [assumption|lia].
 Qed.
+
+(* ---------------------------------------------------------------- how large the budget is *)
+Lemma vsz_range v : 0 <= vsz v <= 8.
+Proof.
+  unfold vsz, Varint.size_uint_var.
+  destruct (v <=? 63); [lia|]. destruct (v <=? 16383); [lia|]. destruct (v <=? 1073741823); [lia|].
+  destruct (v <=? Varint.UINT_VAR_MAX); lia.
+Qed.
+
+Lemma ncid_size_range cl q : 0 <= cl <= CONNECTION_ID_MAX_SIZE -> 0 <= ncid_size cl q <= W_new_connection_id_frame_0_cap.
+Proof.
+  intros H. unfold ncid_size. pose proof (vsz_range q). pose proof (vsz_range W_new_connection_id_frame_retire_prior_to).
+  unfold W_new_connection_id_frame_0_cap, NEW_CONNECTION_ID_FRAME_CAPACITY, STATELESS_RESET_TOKEN_SIZE, CONNECTION_ID_MAX_SIZE in *. lia.
+Qed.
+
+Lemma ret_size_range q : 0 <= ret_size q <= W_retire_connection_id_frame_0_cap.
+Proof. unfold ret_size. pose proof (vsz_range q). unfold W_retire_connection_id_frame_0_cap, RETIRE_CONNECTION_ID_CAPACITY. lia. Qed.
+
+Lemma div_step rm cap : 0 < cap -> (rm - cap) / cap = rm / cap - 1.
+Proof. intros H. replace (rm - cap) with (rm + (-1) * cap) by lia. rewrite Z.div_add by lia. lia. Qed.
+
+(* frames no larger than their declared capacity: at least floor(room / capacity) of them are accepted (or all), and the
+   room shrinks by at most capacity per accepted frame *)
+Lemma fit_lower cap : 0 < cap -> forall szs rm, Forall (fun z => z <= cap) szs ->
+  Z.min (Zlen szs) (rm / cap) <= fst (fit cap rm szs) /\ rm - cap * fst (fit cap rm szs) <= snd (fit cap rm szs).
+Proof.
+  intros Hc. induction szs as [|z t IH]; intros rm F; cbn [fit].
+  - cbn [fst snd]. change (Zlen (@nil Z)) with 0. lia.
+  - inversion F as [|? ? Hz Ht]; subst. rewrite zlen_cons. pose proof (zlen_nonneg t) as Nt.
+    destruct (rm <? cap) eqn:E; cbn [fst snd].
+    + assert (rm / cap < 1) by (apply Z.div_lt_upper_bound; lia). lia.
+    + specialize (IH (rm - z) Ht). destruct (fit cap (rm - z) t) as [n r]. cbn [fst snd] in *.
+      assert ((rm - cap) / cap <= (rm - z) / cap) by (apply Z.div_le_mono; lia).
+      rewrite div_step in H by lia. lia.
+Qed.
+
+(* cid_budget_lower: whatever the mix of frames owed, at least floor(room / 54) of them (or all) are accepted *)
+Lemma cid_budget_lower rm cl news rets : 0 <= cl <= CONNECTION_ID_MAX_SIZE ->
+  Z.min (Zlen news + Zlen rets) (frames_per_room rm) <= cid_budget rm cl news rets.
+Proof.
+  intros Hcl. unfold cid_budget, frames_per_room.
+  assert (C1 : 0 < W_new_connection_id_frame_0_cap) by reflexivity.
+  assert (C2 : 0 < W_retire_connection_id_frame_0_cap) by reflexivity.
+  assert (F1 : Forall (fun z => z <= W_new_connection_id_frame_0_cap) (map (ncid_size cl) news)).
+  { apply Forall_forall. intros z Hz. apply in_map_iff in Hz. destruct Hz as [q [<- _]]. now apply ncid_size_range. }
+  assert (F2 : Forall (fun z => z <= W_retire_connection_id_frame_0_cap) (map ret_size rets)).
+  { apply Forall_forall. intros z Hz. apply in_map_iff in Hz. destruct Hz as [q [<- _]]. apply ret_size_range. }
+  destruct (fit_lower _ C1 _ rm F1) as [L1 R1]. pose proof (fit_bounds W_new_connection_id_frame_0_cap (map (ncid_size cl) news) rm) as B1.
+  rewrite zlen_map in *.
+  destruct (fit W_new_connection_id_frame_0_cap rm (map (ncid_size cl) news)) as [n1 r1]. cbn [fst snd] in *.
+  pose proof (zlen_nonneg rets) as Nr.
+  destruct (n1 <? Zlen news) eqn:En; [lia|].
+  destruct (fit_lower _ C2 _ r1 F2) as [L2 _]. pose proof (fit_bounds W_retire_connection_id_frame_0_cap (map ret_size rets) r1) as B2.
+  rewrite zlen_map in *.
+  destruct (fit W_retire_connection_id_frame_0_cap r1 (map ret_size rets)) as [n2 r2]. cbn [fst snd] in *.
+  assert (N1 : n1 = Zlen news) by lia.
+  destruct (Z_le_gt_dec (rm / W_new_connection_id_frame_0_cap) n1) as [Hle|Hgt]; [lia|].
+  (* more room than the NEW_CONNECTION_ID frames took: the rest serves the RETIRE frames, whose capacity is smaller *)
+  assert (Hr : rm / W_new_connection_id_frame_0_cap - n1 <= r1 / W_retire_connection_id_frame_0_cap).
+  { assert (E : (rm - W_new_connection_id_frame_0_cap * n1) / W_new_connection_id_frame_0_cap = rm / W_new_connection_id_frame_0_cap - n1).
+    { replace (rm - W_new_connection_id_frame_0_cap * n1) with (rm + (- n1) * W_new_connection_id_frame_0_cap) by lia.
+      rewrite Z.div_add by lia. lia. }
+    rewrite <- E.
+    assert (P : 0 <= rm - W_new_connection_id_frame_0_cap * n1).
+    { pose proof (Z.mul_div_le rm W_new_connection_id_frame_0_cap C1). nia. }
+    transitivity ((rm - W_new_connection_id_frame_0_cap * n1) / W_retire_connection_id_frame_0_cap).
+    - apply Z.div_le_compat_l; [assumption|]. unfold W_new_connection_id_frame_0_cap, W_retire_connection_id_frame_0_cap,
+        NEW_CONNECTION_ID_FRAME_CAPACITY, RETIRE_CONNECTION_ID_CAPACITY. lia.
+    - apply Z.div_le_mono; lia. }
+  lia.
+Qed.
+
+(* a packet with room for the declared capacity of the FIRST frame owed makes progress; one without writes nothing *)
+Lemma first_frame_decides rm cl news rets :
+  let cap := match news with _ :: _ => W_new_connection_id_frame_0_cap | [] => W_retire_connection_id_frame_0_cap end in
+  (rm < cap -> cid_budget rm cl news rets = 0) /\
+  (cap <= rm -> news <> [] \/ rets <> [] -> 1 <= cid_budget rm cl news rets).
+Proof.
+  unfold cid_budget. destruct news as [|q t].
+  - cbn [map fit Zlen length Z.of_nat Z.ltb Z.compare]. destruct rets as [|p u]; cbn [map fit].
+    + cbn. split; [reflexivity|intros _ [H|H]; congruence].
+    + split; intros H.
+      * replace (rm <? W_retire_connection_id_frame_0_cap) with true by lia. reflexivity.
+      * intros _. replace (rm <? W_retire_connection_id_frame_0_cap) with false by lia.
+        pose proof (fit_bounds W_retire_connection_id_frame_0_cap (map ret_size u) (rm - ret_size p)).
+        destruct (fit _ _ _) as [n r]. cbn [fst] in *. lia.
+  - cbn [map fit]. rewrite zlen_cons. pose proof (zlen_nonneg t). split; intros H0.
+    + replace (rm <? W_new_connection_id_frame_0_cap) with true by lia. replace (0 <? 1 + Zlen t) with true by lia. reflexivity.
+    + intros _. replace (rm <? W_new_connection_id_frame_0_cap) with false by lia.
+      pose proof (fit_bounds W_new_connection_id_frame_0_cap (map (ncid_size cl) t) (rm - ncid_size cl q)) as B.
+      destruct (fit _ _ _) as [n r]. cbn [fst] in *.
+      destruct (1 + n <? 1 + Zlen t); [lia|].
+      pose proof (fit_bounds W_retire_connection_id_frame_0_cap (map ret_size rets) r). lia.
+Qed.
+
+(* ---------------------------------------------------------------- the composed model: no free budget *)
+(* breach c l s: s is reachable when EVERY datagrams_to_send is a [BSend bs cl] -- its budget is computed from the builder
+   state bs in which the CID loops start -- and every other op is one of Cid's except the free-budget [Send] *)
+Definition blegit (s : Cid.st) (o : bop) : Prop :=
+  match o with
+  | BSend _ _ => True
+  | BOp (Send _) => False
+  | BOp o => legit s o
+  end.
+
+Inductive breach (c : bool) (l : Z) : Cid.st -> Prop :=
+| breach_init : breach c l (handshake_complete (init c) l)
+| breach_step s o : breach c l s -> blegit s o -> breach c l (snd (bstep s o)).
+
+Lemma breach_reach c l s : breach c l s -> reach c l s.
+Proof.
+  intros R. induction R as [|s o R IH Lg]; [constructor|]. unfold bstep. apply reach_step; [exact IH|].
+  destruct o as [bs cl|o]; cbn [to_op blegit legit] in *; [exact I|]. destruct o; cbn [legit] in *; tauto.
+Qed.
+
+Lemma retirement_announced_built_l c l s q : breach c l s -> In q (recvd s) ->
+  q = cur s \/ In q (avail s) \/ In q (pend s) \/ In q (outs s) \/ In q (ackd s).
+Proof. intros R. apply (retirement_announced_l c l). now apply breach_reach. Qed.
+
+Lemma refused_stays_pending_built s bs cl :
+  pend s = snd (fst (send_built bs cl s)) ++ pend (snd (send_built bs cl s)) /\
+  outs (snd (send_built bs cl s)) = outs s ++ snd (fst (send_built bs cl s)).
+Proof. apply refused_stays_pending. Qed.
+
+(* what one composed send writes *)
+Lemma send_built_progress bs cl s : 0 <= cl <= CONNECTION_ID_MAX_SIZE ->
+  let b := budget_of bs cl s in
+  0 <= b <= owed s /\
+  Zlen (snd (fst (fst (send_built bs cl s)))) + Zlen (snd (fst (send_built bs cl s))) = b /\
+  owed (snd (send_built bs cl s)) = owed s - b /\
+  Z.min (owed s) (frames_per_room (room bs)) <= b.
+Proof.
+  intros Hcl. cbv zeta. unfold send_built.
+  assert (B : 0 <= budget_of bs cl s <= owed s).
+  { unfold budget_of, cid_budget, owed.
+    pose proof (fit_bounds W_new_connection_id_frame_0_cap (map (ncid_size cl) (unsent (hosts s))) (room bs)) as B1.
+    rewrite zlen_map in B1. destruct (fit _ _ _) as [n1 r1]. cbn [fst] in B1.
+    pose proof (fit_bounds W_retire_connection_id_frame_0_cap (map ret_size (pend s)) r1) as B2. rewrite zlen_map in B2.
+    pose proof (zlen_nonneg (pend s)). destruct (n1 <? Zlen (unsent (hosts s))); lia. }
+  destruct (send_progress s (budget_of bs cl s)) as [P1 P2].
+  pose proof (cid_budget_lower (room bs) cl (unsent (hosts s)) (pend s) Hcl) as L.
+  fold (budget_of bs cl s) in L. unfold owed in *. repeat split; lia.
+Qed.
+
+Lemma send_closed_built bs cl s : closed (snd (send_built bs cl s)) = closed s.
+Proof. apply send_closed. Qed.
+
+(* fair_sends_drain for the composed model: when every datagrams_to_send starts its CID loops with room for at least k >= 1
+   frames (k = floor(room / 54)), ceil(owed / k) calls leave no retirement pending and no NEW_CONNECTION_ID owed *)
+Lemma fair_sends_drain_built_l k cl : 1 <= k -> 0 <= cl <= CONNECTION_ID_MAX_SIZE -> forall bss s,
+  closed s = None -> Forall (fun bs => k <= frames_per_room (room bs)) bss -> owed s <= k * Zlen bss ->
+  let s' := brun s (map (fun bs => BSend bs cl) bss) in pend s' = [] /\ unsent (hosts s') = [].
+Proof.
+  intros Hk Hcl. induction bss as [|bs bss IH]; intros s Ec F Ho; cbn [map brun].
+  - change (Zlen (@nil Builder.st)) with 0 in Ho. unfold owed in Ho.
+    pose proof (zlen_nonneg (pend s)). pose proof (zlen_nonneg (unsent (hosts s))).
+    split; apply zlen_zero_nil; lia.
+  - inversion F as [|? ? Hb Hbs]; subst. unfold bstep. cbn [to_op step]. rewrite Ec. cbn [snd].
+    change (send s (budget_of bs cl s)) with (send_built bs cl s).
+    apply IH; [now rewrite send_closed_built|assumption|].
+    destruct (send_built_progress bs cl s Hcl) as (B & _ & P & L). rewrite P. rewrite zlen_cons in Ho.
+    pose proof (zlen_nonneg bss). nia.
+Qed.
+
+(* one packet with room for the first frame owed makes progress (and one without leaves everything as it was) *)
+Lemma send_built_first_frame bs cl s : owed s <> 0 ->
+  let cap := match unsent (hosts s) with _ :: _ => W_new_connection_id_frame_0_cap | [] => W_retire_connection_id_frame_0_cap end in
+  (room bs < cap -> budget_of bs cl s = 0 /\ owed (snd (send_built bs cl s)) = owed s) /\
+  (cap <= room bs -> 1 <= budget_of bs cl s /\ owed (snd (send_built bs cl s)) < owed s).
+Proof.
+  intros Ho. cbv zeta. destruct (first_frame_decides (room bs) cl (unsent (hosts s)) (pend s)) as [A B].
+  fold (budget_of bs cl s) in A, B. unfold send_built.
+  destruct (send_progress s (budget_of bs cl s)) as [_ P]. split; intros H.
+  - specialize (A H). rewrite A in *. split; [reflexivity|]. rewrite P. unfold owed.
+    pose proof (zlen_nonneg (pend s)). pose proof (zlen_nonneg (unsent (hosts s))). lia.
+  - assert (Hne : unsent (hosts s) <> [] \/ pend s <> []).
+    { unfold owed in Ho. destruct (unsent (hosts s)); [|left; discriminate]. destruct (pend s); [|right; discriminate].
+      exfalso. apply Ho. reflexivity. }
+    specialize (B H Hne). split; [exact B|]. rewrite P. unfold owed in *.
+    pose proof (zlen_nonneg (pend s)). pose proof (zlen_nonneg (unsent (hosts s))). lia.
+Qed.
+
+(* ---------------------------------------------------------------- a full-size empty 1-RTT packet *)
+Lemma fresh_packet_room c pn :
+  SMALLEST_MAX_DATAGRAM_SIZE <= c_mds c -> 0 <= c_peer c <= CONNECTION_ID_MAX_SIZE ->
+  (forall m, c_max_flight c = Some m -> c_mds c <= m) -> (forall m, c_max_total c = Some m -> c_mds c <= m) ->
+  exists bs, fresh_packet c pn = Some bs /\ OI c bs /\
+             room bs = c_mds c - (SHORT_HEADER_FIXED + c_peer c) - AEAD_TAG_SIZE /\ 21 <= frames_per_room (room bs).
+Proof.
+  intros Hm Hp Hf Ht. unfold fresh_packet, start_packet, init_st, end_current. cbn [valid_ptype negb b_cur].
+  change (valid_ptype PT_ONE_RTT) with true. cbn [negb b_bcap b_tell].
+  unfold SMALLEST_MAX_DATAGRAM_SIZE, CONNECTION_ID_MAX_SIZE in *.
+  replace (c_mds c - 0 <? DATAGRAM_MIN_SPACE) with false by (unfold DATAGRAM_MIN_SPACE; lia).
+  unfold datagram_init. cbn [b_dginit b_total b_flight b_bcap b_tell b_cur b_hascrypto b_pn b_dgrams b_pkts g_log].
+  assert (Eb : match c_max_total c with Some m => if m - 0 <? c_mds c then m - 0 else c_mds c | None => c_mds c end = c_mds c).
+  { destruct (c_max_total c) as [m|] eqn:E; [|reflexivity]. specialize (Ht m eq_refl). destruct (m - 0 <? c_mds c) eqn:E2; lia. }
+  rewrite Eb.
+  assert (Ef : match c_max_flight c with Some m => if m - 0 <? c_mds c then m - 0 else c_mds c | None => c_mds c end = c_mds c).
+  { destruct (c_max_flight c) as [m|] eqn:E; [|reflexivity]. specialize (Hf m eq_refl). destruct (m - 0 <? c_mds c) eqn:E2; lia. }
+  rewrite Ef. cbn [b_bcap b_tell b_fcap b_dgflight b_dginit b_dgpad b_flight b_total b_cur b_hascrypto b_pn b_dgrams b_pkts g_hasinit g_log].
+  unfold header_size. change (negb (PT_ONE_RTT =? PT_ONE_RTT)) with false. cbv iota.
+  replace (0 + (SHORT_HEADER_FIXED + c_peer c) >=? c_mds c) with false by (unfold SHORT_HEADER_FIXED; lia).
+  eexists. split; [reflexivity|]. split; [|split].
+  - split; [split|eexists; reflexivity].
+    + unfold caps_ok. cbn [b_fcap b_bcap]. lia.
+    + intros p Hp'. cbn [b_cur] in Hp'.
+      assert (Ep : p = mkPkt PT_ONE_RTT 0 (SHORT_HEADER_FIXED + c_peer c) false false false pn) by congruence.
+      rewrite Ep. cbn [b_hascrypto b_tell p_start p_hdr p_inflight].
+      split; [reflexivity|]. split; [lia|]. intros _. left. unfold cur_payload. cbn [b_cur b_tell p_start p_hdr]. lia.
+  - unfold room, remaining_buffer_space, remaining_flight_space. cbn [b_bcap b_fcap b_tell]. lia.
+  - unfold frames_per_room, room, remaining_buffer_space, remaining_flight_space. cbn [b_bcap b_fcap b_tell].
+    unfold SHORT_HEADER_FIXED, AEAD_TAG_SIZE, W_new_connection_id_frame_0_cap, NEW_CONNECTION_ID_FRAME_CAPACITY.
+    apply Z.div_le_lower_bound; lia.
+Qed.
+
+(* ... so with full-size empty packets 21 frames go out per call *)
+Lemma full_packets_drain_l cl bss s : 0 <= cl <= CONNECTION_ID_MAX_SIZE -> closed s = None ->
+  Forall (fun bs => exists c pn, SMALLEST_MAX_DATAGRAM_SIZE <= c_mds c /\ 0 <= c_peer c <= CONNECTION_ID_MAX_SIZE /\
+                      (forall m, c_max_flight c = Some m -> c_mds c <= m) /\ (forall m, c_max_total c = Some m -> c_mds c <= m) /\
+                      fresh_packet c pn = Some bs) bss ->
+  owed s <= 21 * Zlen bss ->
+  let s' := brun s (map (fun bs => BSend bs cl) bss) in pend s' = [] /\ unsent (hosts s') = [].
+Proof.
+  intros Hcl Ec F Ho. apply (fair_sends_drain_built_l 21); try assumption; [lia|].
+  eapply Forall_impl; [|exact F]. cbn beta. intros bs (c & pn & H1 & H2 & H3 & H4 & H5).
+  destruct (fresh_packet_room c pn H1 H2 H3 H4) as (bs' & E & _ & _ & K). rewrite H5 in E. inversion E; subst bs'. exact K.
+Qed.
+
+(* ---------------------------------------------------------------- the hypotheses are satisfiable *)
+Definition ex_cfg : cfg := mkCfg true 1200 8 8 0 None None (Some 1500).
+Definition ex_bs : Builder.st := match fresh_packet ex_cfg 7 with Some bs => bs | None => init_st ex_cfg 7 end.
+(* 14 bytes already written into the packet and a congestion window that leaves 120 bytes of flight space *)
+Definition ex_tight : Builder.st :=
+  Builder.mkSt 25 1200 161 0 false false 0 0 (Some (mkPkt PT_ONE_RTT 0 11 true true false 7)) true 7 [] [] false [].
+
+Example budget_examples :
+  let s := Cid.run (start true 8) [RecvPacket 0; RecvNewCid 2 2 8; PacketDone] in
+  fresh_packet ex_cfg 7 = Some ex_bs /\ room ex_bs = 1173 /\ owed s = 8 /\
+  budget_of ex_bs 8 s = 8 /\ room ex_tight = 120 /\ budget_of ex_tight 8 s = 3 /\
+  fst (send_built ex_tight 8 s) = (2, [1; 2; 3], []) /\
+  (let s2 := snd (send_built ex_tight 8 s) in unsent (hosts s2) = [4; 5; 6; 7] /\ pend s2 = [0]) /\
+  fst (fst (w_cid ex_cfg ex_tight 8 s)) = OStop.
+Proof. vm_compute. repeat split. Qed.
